@@ -20,7 +20,7 @@ pub fn hostile_paths() -> Vec<(&'static str, Vec<String>)> {
         ("encoded", s(&["%2e%2e/secret.st", "%2e%2e%2fsecret.st", "..%2fsecret.st", "src/%2e%2e/%2e%2e/peer.st", "%2fetc%2fhostname", "%2esecret"])),
         ("unicode", s(&["\u{2024}\u{2024}/secret.st", "\u{2025}/secret.st", "\u{ff0e}\u{ff0e}/secret.st", "..\u{ff0f}secret.st", "..\u{2215}secret.st", "src/\u{ff55}til.st", "ma\u{0301}in.st", "\u{202e}ts.niam", "\u{ff0e}secret", "\u{feff}../secret.st", "\u{200b}.secret"])),
         ("hidden", s(&[".secret", ".git/config", ".git", ".hidden/nmq22z_x.st", ".hidden", "src/.nmq23z_inner.st", ".newhidden", ".newdir/x.st", "src/.newhidden.st", " .secret", ".secret ", "docs/.new/y.st", "..secret", "...", ".st"])),
-        ("symlink-dir", s(&["outdir/nmq03z_other.st", "outdir", "outdir/newfile.st", "outdir/deep/nmq05z_inner.st", "outdir/newsub/x.st", "outdir/notes.txt", "outdir/.sibhidden", "hid/nmq22z_x.st", "hid", "hid/new.st", "outdir/deep", "indir/deep/leaf.st"])),
+        ("symlink-dir", s(&["outdir/nmq03z_other.st", "outdir", "outdir/newfile.st", "outdir/deep/nmq05z_inner.st", "outdir/newsub/x.st", "outdir/notes.txt", "outdir/.sibhidden", "hid/nmq22z_x.st", "hid", "hid/new.st", "outdir/deep", "indir/deep/leaf.st", "vault/nmq08z_vault.st", "vault", "vault/new.st", "vault/keys.txt", "vaultfile.st"])),
         ("symlink-file", s(&["link.st", "alias.st", "abslink.st", "inlink.st", "loop.st", "link.st/x.st"])),
         ("symlink-dangling", s(&["dangle.st", "dangledir/x.st", "dangledir", "dangledir/sub/y.st"])),
         ("trailing", s(&["main.st/", "src/util.st/.", "src/..", "src/deep/../../..", "src/deep/..", "main.st/.."])),
@@ -32,7 +32,7 @@ pub fn hostile_paths() -> Vec<(&'static str, Vec<String>)> {
 }
 
 pub const SETPROJ_TARGETS: &[&str] =
-    &["${P}", "${P}", "${P}/src", "${S}/sibling", "${P}/outdir", "${P}/main.st", "${P}/no-such-dir", "", "no-such-dir-c19", "${P}/.hidden", "${S}/ws"];
+    &["${P}", "${P}", "${P}/src", "${S}/sibling", "${P}/outdir", "${P}/main.st", "${P}/no-such-dir", "", "no-such-dir-c19", "${P}/.hidden", "${S}/ws", "${S}/ws/proj-secrets"];
 pub const BROWSE_TARGETS: &[&str] = &["${P}", "${S}", "${S}/sibling", "${P}/.git", "${P}/no-such", "${P}/main.st", "/proc"];
 pub const QUERIES: &[&str] = &["mkq", "MKQ", "program", "nmq", "SharedFn", "secret", "", "  ", "z"];
 pub const GLOBS: &[&str] = &["**/*.st", "outdir/**", "../**", "[", "*", "**/.*", "link.st", "**/*.txt"];
